@@ -79,6 +79,7 @@ func genValue(r *rand.Rand, depth int) any {
 // the last three are NOT reserved: their prefix merely ends in the letters of a reserved domain
 // (no dot boundary), or they have no prefix at all
 var labelKeys = []string{"team", "env", "example.org/tier", "acme.io/owner", "cluster.x-k8s.io/cluster-name", "notkubernetes.io/tier", "myk8s.io"}
+
 // the last four sit two or more DNS labels below a reserved domain (real Kubernetes keys)
 var reservedKeys = []string{"kubernetes.io/role", "app.kubernetes.io/name", "k8s.io/thing", "foo.k8s.io/bar", "kubectl.kubernetes.io/last-applied-configuration",
 	"failure-domain.beta.kubernetes.io/zone", "volume.beta.kubernetes.io/storage-class", "rbac.authorization.k8s.io/aggregate-to-admin", "node.alpha.kubernetes.io/ttl"}
@@ -702,6 +703,7 @@ func main() {
 	c.Rule = "generated claims (nested user fields whose keys collide with machinery names at deeper levels, every subset of claim machinery fields with valid values, Manual/Automatic/unset policy, reserved and unreserved label/annotation keys, external name) and XR pre-states (resourceRefs, own connection secret ref, external name, composition refs, status with user fields, private conditions, connectionDetails) synced twice (first sync, then re-sync after a user edit and an XR status change) by the production-wired claim reconciler for both syncers; stored XR and claim compared field by field with the partition from the property statement. Top-level user spec fields never use a machinery name (quantifier: collisions only at other nesting levels); label keys include prefixes that merely end in the letters of a reserved domain (cluster.x-k8s.io, notkubernetes.io) and an unprefixed key ending in k8s.io: not reserved, must propagate. distinct = generated case; non-trivial = >=1 nested user field and >=1 machinery field on the claim."
 	c.Rule += " " + "A fourth sync reads the XR through a stale cache: XR-owned fields keep the XR controller's latest values."
 	c.Rule += " " + "A fifth sync after another writer set the claim-owned field on the XR."
+	c.Rule += " " + "A sixth sync of the UNCHANGED claim by the same long-lived controller after another writer changed a claim-derived spec field and label on the XR (the drift is repaired)."
 	c.Assumptions = []string{"the XRD schema preserves unknown fields, so no pruning is needed for the generated claims", "sim implements SSA via the k8s managedfields library"}
 	c.Floor = 200
 	n := c.N(2000, 40000)
